@@ -551,6 +551,75 @@ func c09Equal(r *core.Run, eq *core.FuncInfo) {
 			return
 		}
 		info := f.Pkg.TypesInfo
+		// every pair the loop visits is compared: in a loop whose body holds a nested comparison nothing before
+		// that comparison can move on to the next element (`continue`) or leave the loop (`break`) — a skipped
+		// field is a field a foreign write can change unnoticed
+		ast.Inspect(f.Decl.Body, func(n ast.Node) bool {
+			var body *ast.BlockStmt
+			switch x := n.(type) {
+			case *ast.RangeStmt:
+				body = x.Body
+			case *ast.ForStmt:
+				body = x.Body
+			default:
+				return true
+			}
+			var cmp *ast.CallExpr
+			for _, cp := range res.Calls {
+				if inSet("eq", cp.Tags...) && cp.Call.Pos() >= body.Pos() && cp.Call.End() <= body.End() && (cmp == nil || cp.Call.Pos() < cmp.Pos()) {
+					// only comparisons directly in this loop (not in a nested loop)
+					direct := true
+					ast.Inspect(body, func(m ast.Node) bool {
+						switch y := m.(type) {
+						case *ast.RangeStmt:
+							if cp.Call.Pos() >= y.Body.Pos() && cp.Call.End() <= y.Body.End() {
+								direct = false
+							}
+						case *ast.ForStmt:
+							if cp.Call.Pos() >= y.Body.Pos() && cp.Call.End() <= y.Body.End() {
+								direct = false
+							}
+						}
+						return true
+					})
+					if direct {
+						cmp = cp.Call
+					}
+				}
+			}
+			if cmp == nil {
+				return true
+			}
+			skip := ""
+			var scan func(m ast.Node) bool
+			scan = func(m ast.Node) bool {
+				switch y := m.(type) {
+				case *ast.FuncLit, *ast.RangeStmt, *ast.ForStmt, *ast.SwitchStmt, *ast.SelectStmt, *ast.TypeSwitchStmt:
+					if m != ast.Node(body) {
+						// a break inside a nested loop / switch leaves that construct only; a continue still skips
+						ast.Inspect(y, func(k ast.Node) bool {
+							if b, ok := k.(*ast.BranchStmt); ok && b.Tok == token.CONTINUE && b.Pos() < cmp.Pos() {
+								if _, isLoop := y.(*ast.SwitchStmt); isLoop {
+									skip = w.Pos(b.Pos())
+								}
+							}
+							return true
+						})
+						return false
+					}
+				case *ast.BranchStmt:
+					if y.Pos() < cmp.Pos() && (y.Tok == token.CONTINUE || y.Tok == token.BREAK || y.Tok == token.GOTO) {
+						skip = w.Pos(y.Pos()) + " ('" + y.Tok.String() + "')"
+					}
+				}
+				return true
+			}
+			ast.Inspect(body, scan)
+			r.Sites++
+			r.Check(skip == "", "C09.equal", core.ShortKey(f.Obj)+" compares every pair its loop visits", w.Pos(body.Pos()), "nothing before the comparison skips an element",
+				"the loop can move past an element at "+skip+" before comparing it: a column (or row) that meets that condition — e.g. a value a foreign writer set to NULL — is left out of the comparison, the rows count as unchanged and the undo overwrites the foreign write")
+			return true
+		})
 		for _, ex := range res.Exits {
 			if !ex.St.Has("false:eq") || len(ex.Results) == 0 {
 				continue
